@@ -31,4 +31,34 @@ def bruteDotMis (Gl Gr : List (Rot α)) (M N : Rot α) : α :=
   maxL ((pairs Gl Gr).flatMap fun p => (pairs Gl Gr).map fun q =>
     rdot (Rot.mul (Rot.mul p.1 M) p.2) (Rot.mul (Rot.mul q.1 N) q.2))
 
+inductive ProperChoice where
+  | self | proper | laueProper
+deriving DecidableEq, Repr
+
+/-- decision table of `get_proper_groups` on the flags (is_proper, contains_inversion) of the two groups;
+`none` is the `NotImplementedError` branch -/
+def properGroups (lProper lInv rProper rInv : Bool) : Option (ProperChoice × ProperChoice) :=
+  if lProper && rProper then some (.self, .self)
+  else if lProper && !rProper then some (.self, .proper)
+  else if !lProper && rProper then some (.proper, .self)
+  else if lInv && rInv then some (.proper, .proper)
+  else if lInv && !rInv then some (.proper, .laueProper)
+  else if !lInv && rInv then some (.laueProper, .proper)
+  else none
+
+/-- `OrientationRegion.__gt__`: all normal dot products `≥ -eps` or all `≤ eps` -/
+def insideRegion (eps : α) (normals : List (Quat α)) (q : Quat α) : Bool :=
+  (normals.all fun n => le (-eps) (Quat.dot n q)) || (normals.all fun n => le (Quat.dot n q) eps)
+
+/-- the first element satisfying `p`, else the last element (the loop of `map_into_symmetry_reduced_zone`) -/
+def firstInside {β : Type} (p : β → Bool) : List β → Option β
+  | [] => none
+  | [x] => some x
+  | x :: y :: r => if p x then some x else firstInside p (y :: r)
+
+/-- `Misorientation.map_into_symmetry_reduced_zone`: images `gl·M·gr` in the order of `itertools.product(Gl, Gr)` -/
+def reduceZone (eps : α) (Gl Gr : List (Rot α)) (normals : List (Quat α)) (M : Rot α) : Option (Rot α) :=
+  firstInside (fun r => insideRegion eps normals r.q)
+    (Gl.flatMap fun gl => Gr.map fun gr => Rot.mul (Rot.mul gl M) gr)
+
 end Orix.Disori
